@@ -37,13 +37,14 @@ ASSUMPTIONS = [
     "no count (filter t) or as 1 (ngettext, npgettext, tag), as the code documents",
     "\\w is modelled as ASCII [A-Za-z0-9_] and \\s as the ASCII/Latin-1 whitespace set; the theorems hold for every \\w that excludes % ( ) ; "
     "generators stay ASCII",
+    "the tag's placeholder name class (\\w before, [^()%] after fix c47e079) is read from TranslateNode.re_vars of the code under test and passed to the model, whose theorems hold for every class excluding % ( )",
     "autoescape is off in the model streams; an oracle-only stream checks the autoescape variant (message and values HTML-escaped)",
     "conversions %r / %a of CPython formatting are not modelled (they never occur after the fix: every stray % is escaped first)",
 ]
 MANIFEST = {
     "technique": "Lean 4 proof (well-founded induction over the message text: escaping + CPython %-formatting = placeholder substitution) "
     "+ differential correspondence through rendered templates and against CPython's % operator",
-    "text": "Theorems format_is_substitution, tag_format_is_expansion(_trimmed), plural_choice_* and the end-to-end t/ngettext/tag corollaries hold for "
+    "text": "Theorems format_is_substitution, tag_format_is_expansion_partial, tag_format_trimmed_partial (trimming commutes with the %/placeholder encoding), plural_choice_* and the end-to-end t/ngettext/tag corollaries hold for "
     "every message text, every variable assignment and every \\w class that excludes %, ( and ); the model is tied to translate.py / "
     "translate_tag.py by exhaustive small-message and random differential runs through the five filters and the tag, and the "
     "CPython %-formatting model by a differential run against the real operator.",
@@ -503,7 +504,7 @@ class FilterStream(Stream):
 
 # ------------------------------------------------------------------------------------------------------
 CONTENT = ["%", "%%", "%s", "%(x)s", "%(", "(", ")", "s", ")s", " ", "  ", "\n", " \n  ", "\t", "<b>", "k", "100", "d", "&"]
-VARS = ["x", "y", "count", "s"] * 3 + ["a-b"]
+VARS = ["x", "y", "count", "s"] * 6 + ["a-b", "a-b", "a)b"]
 
 
 def tag_source(case) -> tuple:
@@ -519,8 +520,12 @@ def tag_source(case) -> tuple:
         data[f"kw{i}"] = v
         args.append(f"{k}: kw{i}")
 
+    def var_src(name):
+        # a name that is not an identifier is reached by bracket notation
+        return name if all(ch in WORDCH + "-" for ch in name) else "['" + name + "']"
+
     def block(ps):
-        return "".join(p[1] if p[0] == "c" else "{{ " + p[1] + " }}" for p in ps)
+        return "".join(p[1] if p[0] == "c" else "{{ " + var_src(p[1]) + " }}" for p in ps)
 
     src = "{% translate" + (" " + ", ".join(args) if args else "") + " %}" + block(case["singular"])
     if case["plural"] is not None:
@@ -541,6 +546,13 @@ def norm_pieces(ps):
                 continue
         out.append(list(p))
     return out
+
+
+def tag_name_class() -> str:
+    """Which characters a tag placeholder name may have, read from the code under test: `\\w` ("word") or `[^()%]` ("noparen")."""
+    from liquid.extra.tags.translate_tag import TranslateNode
+
+    return "word" if "\\w" in TranslateNode.re_vars.pattern else "noparen"
 
 
 class TagStream(Stream):
@@ -573,8 +585,6 @@ class TagStream(Stream):
                     out.append(mk([["c", "k"]] + ps + [["c", "k"]], kwargs=[("x", "V%s")], globals_={"y": "%(x)s"}, trim=False))
         # (2) every count, with and without plural / context
         for c in COUNTS:
-            if c == ["none"]:
-                continue  # `count: nil` -> int(None): a TypeError that is C02's business, not a message-text question
             for plural in (None, [["c", "many "], ["v", "count"], ["c", "%"]]):
                 for cx in (None, "menu"):
                     out.append(mk([["c", "one "], ["v", "count"], ["c", "%"]], plural=plural, count=c, ctx_=cx))
@@ -598,7 +608,7 @@ class TagStream(Stream):
                     kwargs.append((name, rng.choice(["V", "", "<i>", "50%", "%(x)s", "%s"])))
                 elif r == 2:
                     globs[name] = rng.choice(["G", "%", "a  b"])
-            count = rng.choice([c for c in COUNTS if c != ["none"]])
+            count = rng.choice(COUNTS)
             out.append(
                 mk(
                     block(),
@@ -626,7 +636,7 @@ class TagStream(Stream):
 
     def line(self, case):
         pairs = [[k, stringify(v)] for k, v in self._vals(case).items()]
-        return ["c26_tag", case["singular"], case["plural"], case["count"], case["trim"], pairs]
+        return ["c26_tag", case["singular"], case["plural"], case["count"], case["trim"], pairs, tag_name_class()]
 
     def oracle(self, case, obs):
         vals = self._vals(case)
@@ -646,7 +656,7 @@ class TagStream(Stream):
 
         want = expand(chosen)
         text = "".join(p[1] if p[0] == "c" else "{{" + p[1] + "}}" for p in chosen)
-        feature = "var-not-word" if any(p[0] == "v" and any(ch not in WORDCH for ch in p[1]) for p in chosen) else "%-before-var" if any(a[0] == "c" and a[1].endswith("%") and b[0] == "v" for a, b in zip(chosen, chosen[1:])) else ("%" if "%" in text else "plain")
+        feature = "var-paren-percent" if any(p[0] == "v" and any(ch in "()%" for ch in p[1]) for p in chosen) else "var-not-word" if any(p[0] == "v" and any(ch not in WORDCH for ch in p[1]) for p in chosen) else "%-before-var" if any(a[0] == "c" and a[1].endswith("%") and b[0] == "v" for a, b in zip(chosen, chosen[1:])) else ("%" if "%" in text else "plain")
         if "err" in obs:
             return (f"tag|{feature}|raises-{obs['err']}", f"block {text!r} raised {obs['err']}; expected {want!r}")
         if obs["ok"] == want:
